@@ -98,6 +98,7 @@ NULLABLE_FIELDS = {
     ('Node', 'init'): {'only_when': ('kind', frozenset(['ND_FOR'])), 'why': '`while` / `for(;..` have no init clause'},
     ('Node', 'inc'): {'only_when': ('kind', frozenset(['ND_FOR'])), 'why': '`while` / `for(..;)` have no increment'},
     ('Node', 'cond'): {'only_when': ('kind', frozenset(['ND_FOR'])), 'why': '`for(;;)` has no condition'},
+    ('Type', 'vla_size'): {'only_when': ('kind', frozenset(['TY_VLA'])), 'why': 'a variable-length array type has no size variable until compute_vla_size() has run on it'},
 }
 NULLABLE_GLOBALS = {'cond_incl': 'no conditional inclusion is open'}
 
@@ -339,6 +340,8 @@ def run(P, rep, tier):
     r1322(P, W, rep)
     r1323(P, rep, tier)
     r1324(P, rep)
+    r1325(P, W, rep)
+    r1326(W, engs, rep)
     for rule, fam in (('R13.13', LD.r1313_function), ('R13.14', LD.r1314_declspec), ('R13.15', LD.r1315_typing), ('R13.16', LD.r1316_constexpr)):
         try:
             fam(P, rep, rule)
@@ -1199,13 +1202,141 @@ def r136(W, engs, rep):
 
 
 # --------------------------------------------------------------------------------------------
+def r1325(P, W, rep):
+    """what the code generator does at the entry of a function definition depends on the types of the parameters only (offsets, register classes, the size
+    dispatchers store_gp / store_fp, assertions on the size).  The entry function of the code generator is interpreted (Engine I) on a program that consists of
+    one definition whose last parameter has a witness type -- every scalar class, aggregates of every eightbyte classification up to 16 bytes, the aggregates
+    without members, an aggregate passed in memory -- with the argument registers free, nearly used up and used up.  No path may end in unreachable()
+    ("internal error") or a failing assert()."""
+    rep.rule('R13.25', 'the prologue the code generator emits for a function definition (parameter offsets, saving the register-passed parameters) reaches neither '
+                       'unreachable() ("internal error") nor a failing assertion for any parameter type: the entry function of the code generator, interpreted on a one-function '
+                       'program per witness parameter type (scalars, aggregates of every eightbyte classification up to 16 bytes including those without members, an aggregate '
+                       'passed in memory) and register pressure (none, one register of each class left, none left), always returns', floor=60)
+    from ..interp import Interp, Obj, Sym, Arr, Unsupported
+    cu = W.units['codegen.c']
+    entry = 'codegen'
+    if entry not in cu.functions:
+        rep.undecided('R13.25', 'codegen.c:codegen:entry', 'the entry function codegen() of the code generator vanished')
+        return
+    where0 = 'codegen.c:%d' % cu.fn(entry).line
+    eparams = [(p.type or '').replace(' ', '') for p in cu.params(entry)]
+    if not eparams or eparams[0] != 'Obj*':
+        rep.undecided('R13.25', 'codegen.c:codegen:entry', 'codegen() no longer takes the list of objects as its first parameter (%s)' % eparams, where=where0)
+        return
+    wl, T = _witness_types(P, cu)
+    of = [x for x, t, b in (cu.records.get('Obj') or [])]
+    nf = [x for x, t, b in (cu.records.get('Node') or [])]
+    if 'params' not in of or 'locals' not in of or 'offset' not in of or 'body' not in of:
+        raise AnalysisBroken('struct Obj fields not recognised')
+    lg, db = T('TY_LONG', 8, 8), T('TY_DOUBLE', 8, 8)
+    vd = T('TY_VOID', 1, 1)
+    scal = [('_Bool', T('TY_BOOL', 1, 1, is_unsigned=1)), ('char', T('TY_CHAR', 1, 1)), ('short', T('TY_SHORT', 2, 2)), ('int', T('TY_INT', 4, 4)), ('long', lg),
+            ('enum', T('TY_ENUM', 4, 4)), ('float', T('TY_FLOAT', 4, 4)), ('double', db), ('long double', T('TY_LDOUBLE', 16, 16)), ('pointer', T('TY_PTR', 8, 8, base=vd))]
+    ch = T('TY_CHAR', 1, 1)
+    big = [w for n, w in wl if n == 'struct{char[16]}']
+    if big:
+        import copy
+        m = big[0].fields['members']
+        arr24 = T('TY_ARRAY', 24, 1, base=ch, array_len=24)
+        mm = Obj('Member', fields=dict(m.fields, ty=arr24))
+        scal.append(('struct{char[24]}', T('TY_STRUCT', 24, 1, members=mm)))
+    pressures = [('', []), ('5 long,7 double,', [lg] * 5 + [db] * 7), ('6 long,8 double,', [lg] * 6 + [db] * 8)]
+    # the diagnostics / assertions a path can end in: line -> (function, description)
+    sinks = {}
+    for f, fd in cu.functions.items():
+        for c in fd.calls('error'):
+            a = c.args()
+            m = (a[0].str_value() or '?') if a else '?'
+            sinks[c.line] = (f, 'unreachable()' if m.startswith('internal error') else 'error("%s")' % m)
+        for c in fd.calls('__assert_fail'):
+            cond, neg = _assert_cond(c)
+            sinks[c.line] = (f, 'assert(%s)' % (_canon(cond) if cond is not None else '?'))
+
+    def mkvar(w, nxt):
+        fo = {x: 0 for x in of}
+        fo.update({'ty': w, 'name': 'p', 'is_local': 1, 'align': w.fields['align'], 'next': nxt})
+        return Obj('Obj', fields=fo)
+    body = Obj('Node', fields={x: 0 for x in nf})
+    n = 0
+    fails = {}
+    for wname, w in wl + scal:
+        for pname, pre in pressures:
+            key = 'codegen.c:%s:definition(%s%s)' % (entry, pname, wname)
+            head = mkvar(w, 0)
+            for t in reversed(pre):
+                head = mkvar(t, head)
+            fo = {x: 0 for x in of}
+            ab = {x: 0 for x in of}
+            ab['offset'] = -8
+            fo.update({'name': 'f', 'is_function': 1, 'is_definition': 1, 'is_live': 1, 'params': head, 'locals': head, 'body': body,
+                       'ty': T('TY_FUNC', 1, 1, return_ty=T('TY_INT', 4, 4)), 'alloca_bottom': Obj('Obj', fields=ab)})
+            prog = Obj('Obj', fields=fo)
+            it = Interp(P, cu, {'opaque': ['println', 'gen_stmt'], 'cut': {'get_input_files': lambda it, ctx, call, args: Arr([0])}, 'rec_limit': 12, 'globals': {'depth': 0}})
+            try:
+                res = it.explore(entry, lambda ctx: [prog] + [Sym('arg%d' % i, t) for i, t in enumerate(eparams[1:])], max_paths=200)
+            except (Unsupported, AnalysisBroken) as ex:
+                rep.undecided('R13.25', key, 'codegen() cannot be interpreted on a function definition with this parameter: %s' % ex, where=where0)
+                continue
+            if not res:
+                rep.undecided('R13.25', key, 'no path of codegen() could be followed for a function definition with this parameter', where=where0)
+                continue
+            n += 1
+            bad = sorted(set((out[1], out[3]) for ctx, out in res if out[0] == 'noreturn'))
+            if not bad:
+                rep.ob('R13.25', key, True, '', where=where0)
+                continue
+            for fn, line in bad:
+                fails.setdefault((fn, line), []).append((pname, wname, w.fields['size']))
+    for (fn, line), lst in sorted(fails.items()):
+        sf, sd = sinks.get(line, ('?', fn + '()'))
+        names = sorted(set(wn for pn, wn, sz in lst))
+        rep.ob('R13.25', 'codegen.c:%s:%s<-definition(%s)' % (sf, sd.replace(' ', '_'), ','.join(names)), False,
+               'for a function definition with a parameter of type %s the code generator ends in %s of %s() instead of emitting the prologue (parameter lists tried: %s): '
+               'the compiler %s on a program it has accepted'
+               % (', '.join('%s (size %d)' % (wn, sz) for wn, sz in sorted(set((wn, sz) for pn, wn, sz in lst))), sd, sf, '; '.join('(%s%s)' % (pn, wn) for pn, wn, sz in lst),
+                  'aborts (SIGABRT)' if fn == '__assert_fail' else 'stops with an internal error / a diagnostic without a source position'),
+               where='codegen.c:%d' % line, facts={'parameter_lists': [pn + wn for pn, wn, sz in lst], 'ends_in': '%s:%s' % (sf, sd)})
+    rep.extra['R13.25'] = {'definitions_interpreted': n, 'witness_parameter_types': [x for x, w in wl + scal], 'register_pressure': [x or 'none' for x, y in pressures]}
+
+
+# --------------------------------------------------------------------------------------------
+def r1326(W, engs, rep):
+    """R13.1 takes every pointer field outside the nullable table for non-null.  That is an invariant the constructors have to establish: a value read from a field
+    of the table (one the code leaves NULL for some objects) must not be stored into such a field -- directly, or by handing it to a parameter that a function
+    stores there unconditionally (derived, transitive: new_var_node(var) -> Node.var) -- unless a null test, or a callee that assigns the field on every return
+    (derived from the return states: compute_vla_size() -> Type.vla_size), dominates.  Otherwise the NULL surfaces later, far from its source, where a reader
+    dereferences the field without a test (add_type: node->var->ty): SIGSEGV."""
+    rep.rule('R13.26', 'a pointer read from a field the code leaves NULL for some objects (nullable table: no name, no initializer expression, no variable in the scope entry, no size '
+                       'variable of a variable-length array type yet) is stored into a pointer field that every reader takes for non-null -- directly or through a parameter a '
+                       'constructor stores there unconditionally (derived) -- only where a null test or a callee that assigns the field on every return (derived) dominates', floor=6)
+    obs = {}
+    for (un, f), e in sorted(engs.items()):
+        for k, d in sorted(e.nnsinks.items(), key=lambda x: (x[1]['node'].line, x[0][1])):
+            how = d['how'].replace(' ', '_')
+            key = '%s:%s:%s->%s(%s%s)' % (un, f, e.show(d['path']) if d['path'] else d['src'][1], d['field'], how, ('_for_%s()' % d['user']) if d.get('user') else '')
+            o = obs.get(key)
+            if o is not None and (o[0] is False or not d['bad']):
+                continue
+            what = ''
+            if d['bad']:
+                what = ('%s() %s `%s`, which may be NULL here (%s); it ends up in %s, a field that no reader tests before dereferencing it: the compiler dies with SIGSEGV later '
+                        '(e.g. when the node is typed) instead of answering with a located diagnostic or output'
+                        % (f, 'stores' if d['how'] == 'store' else 'passes as %s' % d['how'], d['expr'], _why(d['src']), d['field']))
+            obs[key] = (not d['bad'], what, '%s:%d' % (un, d['node'].line), {'source': d['src'][1], 'sink': d['field'], 'kinds': d['ctx']})
+    for key, (ok, what, where, facts) in sorted(obs.items()):
+        rep.ob('R13.26', key, ok, what, where=where, facts=facts)
+    rep.extra['R13.26'] = {'parameters_stored_into_fields_taken_for_non-null': {'%s#%d' % (f, i + 1): fld for (f, i), fld in sorted(W.mustnn.items())},
+                           'functions_that_assign_a_nullable_field_on_every_return': {'%s#%d' % (f, i + 1): sorted(x[1] for x in v) for (f, i), v in sorted(W.establishes.items())}}
+
+
+# --------------------------------------------------------------------------------------------
 def r1324(P, rep):
     """a located diagnostic names the file the token is in: tokens that are made after tokenizing (converted string literals, number / string tokens of builtin
     macros, results of # and ##) are created while `current_file` is whatever file was tokenized last; error_tok()/warn_tok() print tok->file->name with tok->line_no,
     so a token that keeps the creator's stamp is reported in another file, at a line that need not exist there.  The obligations are C18's (R18.5)."""
     rep.rule('R13.24', 'the file and line a located diagnostic prints are those of the reported token: every function that makes a token from a template token after '
                        'tokenizing (converted string literals, tokens of builtin macros, # and ##) hands on the template\'s file identity and line, not the stamp of the '
-                       'file that happened to be tokenized last (obligations of C18 R18.5, re-issued)', floor=8)
+                       'file that happened to be tokenized last (obligations of C18 R18.5, re-issued)', floor=6)
     from ..report import Report, reissue
     from ..interp import Unsupported
     sub = Report('C18')
